@@ -175,9 +175,9 @@ theorem prefixNoTern_mysql : prefixNoTern mysql := by
     rendering, any compatible grammar): the backend reads the emitted text back as the emitted
     tree, up to re-association of the associative chains. -/
 theorem core_render_read_back (d : Dialect) (g : Grammar) (hg : coreCompat g = true)
-    (hpt : prefixNoTern g) (e : SaExpr) (hC : Core e = true) (hW : WG e = true) :
+    (hpt : prefixNoTern g) (e : SaExpr) (hC : Core e = true) (hW : WG e = true) (hS : CSH g d e) :
     parse g (render d true e).print = some (render d true e).norm :=
-  parse_print_norm g _ (wb_norm_of_ok g _ (ok_render g (compat_of_bool g hg) hpt d e hC hW))
+  parse_print_norm g _ (wb_norm_of_ok g _ (ok_render g (compat_of_bool g hg) hpt d e hC hW hS))
 
 /-- **render_meaning_preserved** on the fragment: the value the backend computes from the
     emitted text equals the value of the emitted tree — and of its fully parenthesised text —
@@ -186,23 +186,74 @@ theorem core_render_meaning_preserved {V : Type} (d : Dialect) (g : Grammar)
     (hg : coreCompat g = true) (hpt : prefixNoTern g) (I : Interp V)
     (hassoc : ∀ s, G.assocSym s = true → ∀ a b c, I.inf s (I.inf s a b) c = I.inf s a (I.inf s b c))
     (hparen : ∀ v, I.br .paren v = v)
-    (e : SaExpr) (hC : Core e = true) (hW : WG e = true) :
+    (e : SaExpr) (hC : Core e = true) (hW : WG e = true) (hS : CSH g d e) :
     (parse g (render d true e).print).map (evalG I) = some (evalG I (render d true e).fullParen) := by
   rw [backend_value_of_text g I hassoc _
-    (wb_norm_of_ok g _ (ok_render g (compat_of_bool g hg) hpt d e hC hW))]
+    (wb_norm_of_ok g _ (ok_render g (compat_of_bool g hg) hpt d e hC hW hS))]
   simp [evalG_fullParen I hparen]
 
-theorem core_sqlite (e : SaExpr) (hC : Core e = true) (hW : WG e = true) :
+/-- PostgreSQL reads every bare operand of `||` as SQLAlchemy intends; SQLite does not
+    (`||` binds tighter than arithmetic there: finding F1, `sqlite_concat_counterexample`) -/
+theorem concatFull_postgresql : concatFull postgresql = true := by decide +kernel
+theorem concatFull_sqlite : concatFull sqlite = false := by decide +kernel
+
+mutual
+/-- a dialect that spells concatenation as the function `concat(…)` has no F1 cells -/
+theorem concatSafe_fn (d : Dialect) (hd : d = .mysql ∨ d = .mariadb) : ∀ e : SaExpr, ConcatSafe d e = true
+  | .binary op l r _ _ _ => by
+    simp only [ConcatSafe, concatSafe_fn d hd l, concatSafe_fn d hd r, Bool.and_true]
+    by_cases h : op = .concat_op
+    · subst h
+      rcases hd with h | h <;> subst h <;> rfl
+    · simp [h]
+  | .clist op cs _ _ _ => by
+    simp only [ConcatSafe, concatSafeList_fn d hd cs, Bool.and_true]
+    by_cases h : op = .concat_op
+    · subst h
+      rcases hd with h | h <;> subst h <;> rfl
+    · simp [h]
+  | .unary _ e _ => by simp only [ConcatSafe, concatSafe_fn d hd e]
+  | .grouping e => by simp only [ConcatSafe, concatSafe_fn d hd e]
+  | .func _ args _ => by simp only [ConcatSafe, concatSafeList_fn d hd args]
+  | .cast e _ => by simp only [ConcatSafe, concatSafe_fn d hd e]
+  | .case_ v ws e _ => by
+    simp only [ConcatSafe, concatSafe_fn d hd v, concatSafeList_fn d hd ws, concatSafe_fn d hd e,
+      Bool.and_self]
+  | .col _ _ => rfl
+  | .bind _ _ => rfl
+  | .null => rfl
+  | .true_ => rfl
+  | .false_ => rfl
+  | .asbool _ _ _ => rfl
+  | .subq _ _ => rfl
+  | .inlist _ _ _ => rfl
+  | .inrows _ _ _ => rfl
+  | .tuple_ _ => rfl
+  | .litcol _ _ => rfl
+  | .ilikeOperand _ => rfl
+  | .absent => rfl
+theorem concatSafeList_fn (d : Dialect) (hd : d = .mysql ∨ d = .mariadb) :
+    ∀ es : List SaExpr, ConcatSafeList d es = true
+  | [] => rfl
+  | e :: es => by simp only [ConcatSafeList, concatSafe_fn d hd e, concatSafeList_fn d hd es, Bool.and_self]
+end
+
+/-- SQLite, **partial**: the F1 cells (an arithmetic operator exposed under `||`) are excluded
+    by `ConcatSafe` — see `sqlite_concat_counterexample` for what happens there -/
+theorem core_sqlite_partial (e : SaExpr) (hC : Core e = true) (hW : WG e = true)
+    (hS : ConcatSafe .sqlite e = true) :
     parse sqlite (render .sqlite true e).print = some (render .sqlite true e).norm :=
-  core_render_read_back .sqlite sqlite coreCompat_sqlite prefixNoTern_sqlite e hC hW
+  core_render_read_back .sqlite sqlite coreCompat_sqlite prefixNoTern_sqlite e hC hW (Or.inr hS)
 
 theorem core_postgresql (e : SaExpr) (hC : Core e = true) (hW : WG e = true) :
     parse postgresql (render .postgresql true e).print = some (render .postgresql true e).norm :=
   core_render_read_back .postgresql postgresql coreCompat_postgresql prefixNoTern_postgresql e hC hW
+    (Or.inl concatFull_postgresql)
 
 theorem core_mysql (e : SaExpr) (hC : Core e = true) (hW : WG e = true) :
     parse mysql (render .mysql true e).print = some (render .mysql true e).norm :=
   core_render_read_back .mysql mysql coreCompat_mysql prefixNoTern_mysql e hC hW
+    (Or.inr (concatSafe_fn .mysql (Or.inl rfl) e))
 
 /-! ### from the API calls to the backend's reading
 
@@ -211,22 +262,26 @@ unary minus, the six comparisons, `is_` / `is_not`, comparison with `None`, `and
 number of clauses (nested any way) and `~`.  `build` applies the transcribed constructors in
 Python's evaluation order. -/
 
+/-- the fragment of the ∀-theorems: numeric, boolean and string-valued API-call trees -/
+def FragU (u : U) : Prop := NumU u = true ∨ BoolU u = true ∨ StrU u = true
+
 /-- `build` of a tree of the fragment is in the core fragment and well grouped -/
-theorem build_core_WG (u : U) (e : SaExpr) (hu : NumU u = true ∨ BoolU u = true)
+theorem build_core_WG (u : U) (e : SaExpr) (hu : FragU u)
     (hb : build u = some e) : Core e = true ∧ WG e = true := by
-  rcases hu with h | h
+  rcases hu with h | h | h
   · exact ⟨(build_num u e h hb).core, (build_num u e h hb).wg⟩
   · exact ⟨(build_bool u e h hb).core, (build_bool u e h hb).wg⟩
+  · exact ⟨(build_str u e h hb).core, (build_str u e h hb).wg⟩
 
 /-- **api_tree_read_back** — the end-to-end statement for the fragment: for EVERY API-call tree
     `u` (any size, any nesting), every dialect's compiler and every grammar compatible with
     the regenerated precedence table, the backend reads the emitted text back as the emitted
     tree (up to re-association of `+ * AND OR` chains). -/
 theorem api_tree_read_back (d : Dialect) (g : Grammar) (hg : coreCompat g = true)
-    (hpt : prefixNoTern g) (u : U) (e : SaExpr) (hu : NumU u = true ∨ BoolU u = true)
-    (hb : build u = some e) :
+    (hpt : prefixNoTern g) (u : U) (e : SaExpr) (hu : FragU u)
+    (hb : build u = some e) (hS : CSH g d e) :
     parse g (render d true e).print = some (render d true e).norm :=
-  core_render_read_back d g hg hpt e (build_core_WG u e hu hb).1 (build_core_WG u e hu hb).2
+  core_render_read_back d g hg hpt e (build_core_WG u e hu hb).1 (build_core_WG u e hu hb).2 hS
 
 /-- **render_meaning_preserved** (fragment, end to end): the value the backend computes from the
     emitted text is the value of the fully parenthesised rendering, for every row and every
@@ -236,25 +291,29 @@ theorem render_meaning_preserved {V : Type} (d : Dialect) (g : Grammar)
     (hg : coreCompat g = true) (hpt : prefixNoTern g) (I : Interp V)
     (hassoc : ∀ s, G.assocSym s = true → ∀ a b c, I.inf s (I.inf s a b) c = I.inf s a (I.inf s b c))
     (hparen : ∀ v, I.br .paren v = v)
-    (u : U) (e : SaExpr) (hu : NumU u = true ∨ BoolU u = true) (hb : build u = some e) :
+    (u : U) (e : SaExpr) (hu : FragU u) (hb : build u = some e) (hS : CSH g d e) :
     (parse g (render d true e).print).map (evalG I) = some (evalG I (render d true e).fullParen) :=
   core_render_meaning_preserved d g hg hpt I hassoc hparen e
-    (build_core_WG u e hu hb).1 (build_core_WG u e hu hb).2
+    (build_core_WG u e hu hb).1 (build_core_WG u e hu hb).2 hS
 
-theorem api_tree_read_back_sqlite (u : U) (e : SaExpr) (hu : NumU u = true ∨ BoolU u = true)
-    (hb : build u = some e) :
+/-- SQLite, **partial**: for every tree of the fragment whose constructed element avoids the F1
+    cells (`ConcatSafe`: no arithmetic operator exposed under `||`) -/
+theorem api_tree_read_back_sqlite_partial (u : U) (e : SaExpr) (hu : FragU u)
+    (hb : build u = some e) (hS : ConcatSafe .sqlite e = true) :
     parse sqlite (render .sqlite true e).print = some (render .sqlite true e).norm :=
-  api_tree_read_back .sqlite sqlite coreCompat_sqlite prefixNoTern_sqlite u e hu hb
+  api_tree_read_back .sqlite sqlite coreCompat_sqlite prefixNoTern_sqlite u e hu hb (Or.inr hS)
 
-theorem api_tree_read_back_postgresql (u : U) (e : SaExpr) (hu : NumU u = true ∨ BoolU u = true)
+theorem api_tree_read_back_postgresql (u : U) (e : SaExpr) (hu : FragU u)
     (hb : build u = some e) :
     parse postgresql (render .postgresql true e).print = some (render .postgresql true e).norm :=
   api_tree_read_back .postgresql postgresql coreCompat_postgresql prefixNoTern_postgresql u e hu hb
+    (Or.inl concatFull_postgresql)
 
-theorem api_tree_read_back_mysql (u : U) (e : SaExpr) (hu : NumU u = true ∨ BoolU u = true)
+theorem api_tree_read_back_mysql (u : U) (e : SaExpr) (hu : FragU u)
     (hb : build u = some e) :
     parse mysql (render .mysql true e).print = some (render .mysql true e).norm :=
   api_tree_read_back .mysql mysql coreCompat_mysql prefixNoTern_mysql u e hu hb
+    (Or.inr (concatSafe_fn .mysql (Or.inl rfl) e))
 
 section Sem
 variable [Abs]
@@ -271,7 +330,9 @@ theorem stdI_assoc (env : String → Val) :
   · show SV.s _ = SV.s _
     congr 1
     exact binVal_assoc .mul rfl a.scalar b.scalar c.scalar
-  · rfl
+  · show SV.s _ = SV.s _
+    congr 1
+    exact binVal_assoc .concat_op rfl a.scalar b.scalar c.scalar
   · show SV.s _ = SV.s _
     congr 1
     exact binVal_assoc .and_ rfl a.scalar b.scalar c.scalar
@@ -287,12 +348,12 @@ theorem stdI_assoc (env : String → Val) :
     single-clause collapse and negation rewriting (`~(a < b)` ↦ `a >= b`, …) happened. -/
 theorem api_tree_value_bool (d : Dialect) (g : Grammar) (hg : coreCompat g = true)
     (hpt : prefixNoTern g) (env : String → Val) (u : U) (e : SaExpr)
-    (hu : BoolU u = true) (hn : noIsGen u = true) (hb : build u = some e) :
+    (hu : BoolU u = true) (hn : noIsGen u = true) (hb : build u = some e) (hS : CSH g d e) :
     (parse g (render d true e).print).map (fun t => truth (evalG (stdI env) t).scalar)
       = some (evalBoolU env d u) := by
-  have hcw := build_core_WG u e (Or.inr hu) hb
+  have hcw := build_core_WG u e (Or.inr (Or.inl hu)) hb
   have h1 := backend_value_of_text g (stdI env) (stdI_assoc env) (render d true e)
-    (wb_norm_of_ok g _ (ok_render g (compat_of_bool g hg) hpt d e hcw.1 hcw.2))
+    (wb_norm_of_ok g _ (ok_render g (compat_of_bool g hg) hpt d e hcw.1 hcw.2 hS))
   cases hp : parse g (render d true e).print with
   | none => rw [hp] at h1; simp at h1
   | some t =>
@@ -307,12 +368,12 @@ theorem api_tree_value_bool (d : Dialect) (g : Grammar) (hg : coreCompat g = tru
     boolean trees of the fragment -/
 theorem api_tree_value_num (d : Dialect) (g : Grammar) (hg : coreCompat g = true)
     (hpt : prefixNoTern g) (env : String → Val) (u : U) (e : SaExpr)
-    (hu : NumU u = true) (hn : noIsGen u = true) (hb : build u = some e) :
+    (hu : NumU u = true) (hn : noIsGen u = true) (hb : build u = some e) (hS : CSH g d e) :
     (parse g (render d true e).print).map (fun t => (evalG (stdI env) t).scalar)
       = some (evalNumU env d u) := by
   have hcw := build_core_WG u e (Or.inl hu) hb
   have h1 := backend_value_of_text g (stdI env) (stdI_assoc env) (render d true e)
-    (wb_norm_of_ok g _ (ok_render g (compat_of_bool g hg) hpt d e hcw.1 hcw.2))
+    (wb_norm_of_ok g _ (ok_render g (compat_of_bool g hg) hpt d e hcw.1 hcw.2 hS))
   cases hp : parse g (render d true e).print with
   | none => rw [hp] at h1; simp at h1
   | some t =>
@@ -321,22 +382,50 @@ theorem api_tree_value_num (d : Dialect) (g : Grammar) (hg : coreCompat g = true
     rw [h1, evalG_render env d e hcw.1]
     exact build_num_eval env d u e hu hn hb
 
+/-- the same for string-valued trees: string columns / literals and concatenations (`||`, or
+    `concat(…)` on MySQL) whose operands are string-valued or numeric trees.  On a grammar where
+    `||` binds tighter than arithmetic (SQLite) the hypothesis `CSH` excludes the F1 cells. -/
+theorem api_tree_value_str (d : Dialect) (g : Grammar) (hg : coreCompat g = true)
+    (hpt : prefixNoTern g) (env : String → Val) (u : U) (e : SaExpr)
+    (hu : StrU u = true) (hn : noIsGen u = true) (hb : build u = some e) (hS : CSH g d e) :
+    (parse g (render d true e).print).map (fun t => (evalG (stdI env) t).scalar)
+      = some (evalNumU env d u) := by
+  have hcw := build_core_WG u e (Or.inr (Or.inr hu)) hb
+  have h1 := backend_value_of_text g (stdI env) (stdI_assoc env) (render d true e)
+    (wb_norm_of_ok g _ (ok_render g (compat_of_bool g hg) hpt d e hcw.1 hcw.2 hS))
+  cases hp : parse g (render d true e).print with
+  | none => rw [hp] at h1; simp at h1
+  | some t =>
+    rw [hp] at h1
+    simp only [Option.map_some, Option.some.injEq] at h1 ⊢
+    rw [h1, evalG_render env d e hcw.1]
+    exact build_str_eval env d u e hu hn hb
+
 /-- the same statement about `emit` (= `render ∘ lower`, the compiler's full pipeline including
     the compile-time rewriting of the LIKE-based string operators, which is the identity on
     the fragment) -/
 theorem api_tree_value_bool_emit (d : Dialect) (g : Grammar) (hg : coreCompat g = true)
     (hpt : prefixNoTern g) (env : String → Val) (u : U) (e : SaExpr)
-    (hu : BoolU u = true) (hn : noIsGen u = true) (hb : build u = some e) :
+    (hu : BoolU u = true) (hn : noIsGen u = true) (hb : build u = some e) (hS : CSH g d e) :
     (parse g (emit d e).print).map (fun t => truth (evalG (stdI env) t).scalar)
       = some (evalBoolU env d u) := by
-  rw [emit_core d e (build_core_WG u e (Or.inr hu) hb).1]
-  exact api_tree_value_bool d g hg hpt env u e hu hn hb
+  rw [emit_core d e (build_core_WG u e (Or.inr (Or.inl hu)) hb).1]
+  exact api_tree_value_bool d g hg hpt env u e hu hn hb hS
 
-theorem api_tree_value_bool_sqlite (env : String → Val) (u : U) (e : SaExpr)
-    (hu : BoolU u = true) (hn : noIsGen u = true) (hb : build u = some e) :
+theorem api_tree_value_bool_sqlite_partial (env : String → Val) (u : U) (e : SaExpr)
+    (hu : BoolU u = true) (hn : noIsGen u = true) (hb : build u = some e)
+    (hS : ConcatSafe .sqlite e = true) :
     (parse sqlite (render .sqlite true e).print).map (fun t => truth (evalG (stdI env) t).scalar)
       = some (evalBoolU env .sqlite u) :=
-  api_tree_value_bool .sqlite sqlite coreCompat_sqlite prefixNoTern_sqlite env u e hu hn hb
+  api_tree_value_bool .sqlite sqlite coreCompat_sqlite prefixNoTern_sqlite env u e hu hn hb (Or.inr hS)
+
+theorem api_tree_value_bool_postgresql (env : String → Val) (u : U) (e : SaExpr)
+    (hu : BoolU u = true) (hn : noIsGen u = true) (hb : build u = some e) :
+    (parse postgresql (render .postgresql true e).print).map
+        (fun t => truth (evalG (stdI env) t).scalar)
+      = some (evalBoolU env .postgresql u) :=
+  api_tree_value_bool .postgresql postgresql coreCompat_postgresql prefixNoTern_postgresql env u e
+    hu hn hb (Or.inl concatFull_postgresql)
 
 end Sem
 
@@ -365,11 +454,11 @@ example : NumU bracketTree = true ∧ noIsGen bracketTree = true ∧ (build brac
     value, CAST interpreted as the identity): 3 gives COALESCE(3, 3 + 7) = 3 by the first
     branch, -4 gives the CAST of the subquery by the second, NULL reaches the third branch
     (`b IS NULL`) whose simple CASE matches nothing and has no ELSE: NULL -/
-example : @evalNumU ⟨fun _ _ => .null, fun _ v => v⟩ (fun _ => .int 3) .sqlite bracketTree = .int 3 := by
+example : @evalNumU ⟨fun _ _ => .null, fun _ v => v, fun _ _ => .null⟩ (fun _ => .int 3) .sqlite bracketTree = .int 3 := by
   decide +kernel
-example : @evalNumU ⟨fun _ _ => .null, fun _ v => v⟩ (fun _ => .int (-4)) .sqlite bracketTree = .int (-4) := by
+example : @evalNumU ⟨fun _ _ => .null, fun _ v => v, fun _ _ => .null⟩ (fun _ => .int (-4)) .sqlite bracketTree = .int (-4) := by
   decide +kernel
-example : @evalNumU ⟨fun _ _ => .null, fun _ v => v⟩ (fun _ => .null) .sqlite bracketTree = .null := by
+example : @evalNumU ⟨fun _ _ => .null, fun _ v => v, fun _ _ => .null⟩ (fun _ => .null) .sqlite bracketTree = .null := by
   decide +kernel
 
 /-- the constructors establish the hypothesis `WG` (and stay in the fragment):
@@ -430,6 +519,43 @@ def renderU (d : Dialect) (u : U) : G :=
   match build u with
   | some e => render d true e
   | none => G.atom ⟨"", .other⟩
+
+/-- non-vacuity for the divisions: `(a + b) / (c // (a * 2)) - a / b / 0.5` is in the fragment
+    and builds; on SQLite the true divisions are spelled `x / (y + 0.0)`, the integer floor
+    division is a plain `/`, and the text is read back as the intended tree -/
+def divTree : U :=
+  .bin .sub
+    (.bin .truediv (.bin .add (.col "a" .int) (.col "b" .int))
+      (.bin .floordiv (.col "c" .int) (.bin .mul (.col "a" .int) (.li 2))))
+    (.bin .truediv (.bin .truediv (.col "a" .int) (.col "b" .int)) (.ln "0.5"))
+
+example : NumU divTree = true ∧ noIsGen divTree = true ∧ (build divTree).isSome = true := by
+  decide +kernel
+
+example :
+    (parse sqlite (renderU .sqlite divTree).print).map G.skel = some (renderU .sqlite divTree).norm.skel ∧
+    (renderU .sqlite divTree).skel =
+      .inf .minus
+        (.inf .slash (.inf .plus .leaf .leaf)
+          (.inf .plus (.inf .slash .leaf (.inf .star .leaf .leaf)) .leaf))
+        (.inf .slash (.inf .slash .leaf (.inf .plus .leaf .leaf)) (.inf .plus .leaf .leaf)) := by
+  decide +kernel
+
+/-- non-vacuity for concatenation: `(s || '-' || coalesce(a, 0)) = 'x-1'` is a boolean tree of
+    the fragment whose element avoids the F1 cells (so the SQLite theorems apply to it), while
+    finding F1's tree `(1 + 2) || '3'` is in the fragment but not `ConcatSafe` on SQLite -/
+def catTree : U :=
+  .bin .eq (.bin .concat (.bin .concat (.col "s" .str) (.ls "-")) (.coalesce [.col "a" .int, .li 0]))
+    (.ls "x-1")
+
+example : BoolU catTree = true ∧ noIsGen catTree = true ∧
+    (match build catTree with | some e => ConcatSafe .sqlite e | none => false) = true := by
+  decide +kernel
+
+example : StrU f1Tree = true ∧
+    (match build f1Tree with | some e => ConcatSafe .sqlite e | none => true) = false ∧
+    (match build f1Tree with | some e => ConcatSafe .mysql e | none => false) = true := by
+  decide +kernel
 
 /-- **sqlite_concat_counterexample** (F1): `(1 + 2) || '3'` is emitted without parentheses and
     the SQLite grammar reads the text as `1 + (2 || '3')`.  Replayed on the real code and the
